@@ -218,16 +218,23 @@ func run(c Case) vh.Result {
 		}
 	}
 	if len(got) != len(want) {
-		res.Violation = vh.Fail("frame:record-count", "%d valid records emitted, reference has %d (cuts %v flushes at %v)\n got  %s\n want %s", len(got), len(want), c.Cuts, flushOffsets, brief(got), brief(want))
+		res.Violation = vh.Fail("frame:record-count", "%d valid records emitted, reference has %d (%d cuts %v flushes at %v)\n got  %s\n want %s", len(got), len(want), len(c.Cuts), head(c.Cuts), flushOffsets, brief(got), brief(want))
 		return res
 	}
 	for i := range want {
 		if !bytes.Equal(got[i], want[i]) {
-			res.Violation = vh.Fail("frame:record-content", "record %d differs (cuts %v flushes at %v)\n got  %.200q\n want %.200q", i, c.Cuts, flushOffsets, got[i], want[i])
+			res.Violation = vh.Fail("frame:record-content", "record %d differs (%d cuts %v flushes at %v)\n got  %.200q\n want %.200q", i, len(c.Cuts), head(c.Cuts), flushOffsets, got[i], want[i])
 			return res
 		}
 	}
 	return res
+}
+
+func head(l []int) []int {
+	if len(l) > 12 {
+		return l[:12]
+	}
+	return l
 }
 
 func brief(recs [][]byte) string {
@@ -265,6 +272,9 @@ func genCont(t *rapid.T, maxLen int) []byte {
 	case 0:
 		return nil // empty line
 	case 1:
+		if maxLen < 11 {
+			return []byte("x")[:min(1, max(0, maxLen))]
+		}
 		return []byte("<13>1 short") // looks like a head but shorter than 32 bytes
 	case 2:
 		return []byte("<1634>1 2019-08-15T15:50:46.866915+03:00 four digit pri is not a head")[:min(maxLen, 60)]
@@ -299,6 +309,9 @@ func genLines(t *rapid.T, soft int, allowMulti bool) [][]byte {
 		if allowMulti {
 			for n := rapid.IntRange(0, 3).Draw(t, "nCont"); n > 0 && budget > 2; n-- {
 				cl := genCont(t, budget-1)
+				if len(cl) > budget-1 { // domain: head + continuation lines stay below the soft limit
+					cl = cl[:budget-1]
+				}
 				lines = append(lines, cl)
 				budget -= len(cl) + 1
 			}
